@@ -5,6 +5,7 @@
 package node
 
 import (
+	"bytes"
 	"os"
 	"context"
 	"errors"
@@ -22,6 +23,7 @@ import (
 	"github.com/lindb/lindb/flow"
 	"github.com/lindb/lindb/kv"
 	"github.com/lindb/lindb/models"
+	"github.com/lindb/lindb/series/metric"
 	"github.com/lindb/lindb/pkg/option"
 	"github.com/lindb/lindb/pkg/timeutil"
 	protoCommonV1 "github.com/lindb/lindb/proto/gen/v1/common"
@@ -124,6 +126,51 @@ func (n *Node) Write(db string, shardID int, pts []rows.Point) error {
 		}
 		if err := family.WriteRows(rows.StorageRows(byFamily[ft]...)); err != nil {
 			return err
+		}
+	}
+	return nil
+}
+
+// WriteRouted writes a batch the way a broker does: BrokerBatchRows -> shard group iterator (routing hash) ->
+// family iterator -> one block per (shard, family) -> storage rows of that family.
+func (n *Node) WriteRouted(db string, shards int, pts []rows.Point) error {
+	batch := metric.NewBrokerBatchRows()
+	defer batch.Release()
+	for _, p := range pts {
+		blk, err := rows.Block(p)
+		if err != nil {
+			return err
+		}
+		if err := batch.TryAppend(func(row *metric.BrokerRow) error {
+			row.FromBlock(blk)
+			return nil
+		}); err != nil {
+			return err
+		}
+	}
+	interval := n.Opt.Intervals[0].Interval
+	it := batch.NewShardGroupIterator(int32(shards))
+	for it.HasRowsForNextShard() {
+		shardIdx, famIt := it.FamilyRowsForNextShard(interval)
+		shard, ok := n.Engine.GetShard(db, models.ShardID(shardIdx))
+		if !ok {
+			return fmt.Errorf("shard %d of %s not found", shardIdx, db)
+		}
+		for famIt.HasNextFamily() {
+			ft, frows := famIt.NextFamily()
+			var buf bytes.Buffer
+			for i := range frows {
+				if _, err := frows[i].WriteTo(&buf); err != nil {
+					return err
+				}
+			}
+			family, err := shard.GetOrCrateDataFamily(ft)
+			if err != nil {
+				return err
+			}
+			if err := family.WriteRows(rows.StorageRows(buf.Bytes())); err != nil {
+				return err
+			}
 		}
 	}
 	return nil
